@@ -88,7 +88,7 @@ def pick_step(rng, pool):
             # eliminate the variables of ONE term only, so that the other terms pass through untouched
             vs = list(rng.choice(tl.terms).vars)[:2] or vs
         if op == "elim_refine":
-            sp = rng.random() < 0.35          # simplify=False works on the operand itself: the interesting path
+            sp = rng.random() < 0.5           # simplify=False works on the operand itself: the interesting path
         od = order or [1, 2, 3, 4, 5]
         return op, [tl, ctx, vs, sp, od], [arg_terms(tl), arg_terms(ctx), {"k": "vars", "x": [str(v) for v in vs]}, plain(sp), plain(od)], [i, j]
     if op == "tl_simplify" and rng.random() < 0.5:
@@ -205,7 +205,7 @@ def check(ctx):
     proved = ctx.prove("props/C13.v", ["proofs/SessionFacts.v"])
     proved = ctx.prove("props/C13h.v", ["proofs/PyHeapFacts.v", "proofs/HeapGenFacts.v"]) and proved      # heap level: no write to a pre-existing cell
     rng = random.Random(ctx.seed + 13)
-    nh = 12 if ctx.quick else 400
+    nh = 20 if ctx.quick else 400
     stats = {}
     total = 0
     for h in range(nh):
